@@ -507,7 +507,22 @@ void World::CheckOutput(const InvRecord& r) {
       Report("C20", "output_lost_or_dup", "the output of statement " + S(x.stmt) + " is shown more than once");
     checked++;
     for (const SpawnRec& y : r.spawns) if (&y != &x && y.seq < x.reap_seq && (y.reap_seq == 0 || y.reap_seq > x.seq) && !y.output.empty()) concurrent_output = true;
-    if (smart) continue;
+    if (smart) {
+      // On a smart terminal the status line is redrawn in place (\r ... ESC[K) and a command's output is
+      // printed below it: directly before the block of a command that succeeded stands the end of a status
+      // line, ESC[K and the newline. (Not applied when a console command ran - what was held back is flushed
+      // in plain form - nor to failed commands, whose header comes first, nor to interrupted builds.)
+      bool any_console = false;
+      for (const SpawnRec& y : r.spawns) if (y.console) any_console = true;
+      if (!any_console && !interrupted && x.reap_status == 0 && !IoFault(r)) {
+        size_t b4 = pos;
+        if (b4 > 1 && T[b4 - 1] == '\n' && T[b4 - 2] == '\n') b4--;   // tolerated: a newline owed to the previous block
+        if (!EndsWith(T, b4, "\x1b[K\n"))
+          Report("C20", "output_interleaved", "on a smart terminal the output of statement " + S(x.stmt) + " does not directly follow a status line (ESC[K, newline)");
+        else stats->n["smart_terminal_blocks_checked"]++;
+      }
+      continue;
+    }
     // directly after its own status line / failure header
     size_t before = pos;
     if (before > 0 && T[before - 1] == '\n' && before > 1 && T[before - 2] == '\n') before--;   // tolerated: a newline owed to the previous block
